@@ -538,10 +538,19 @@ func vAdmits(r *vRoute, c *vCand, segs []string) bool {
 // vSpecWinner: index of the route the documented priority selects, -1 if none.
 // Also returns, per candidate, the term "this candidate is the selected one".
 func vSpecWinner(routes []vRoute, segs []string) (int, []vCand, []bool) {
+	return vSpecWinnerGated(routes, segs, nil)
+}
+
+// vSpecWinnerGated: as vSpecWinner, but route i is eligible only if gate[i]
+// (header constraints, C09); every form of a route shares its gate.
+func vSpecWinnerGated(routes []vRoute, segs []string, gate []bool) (int, []vCand, []bool) {
 	cands := vCandidates(routes, len(segs))
 	admit := make([]bool, len(cands))
 	for i := range cands {
 		admit[i] = vAdmits(&routes[cands[i].route], &cands[i], segs)
+		if gate != nil {
+			admit[i] = vx.And(admit[i], gate[cands[i].route])
+		}
 	}
 	winner := -1
 	for i := len(cands) - 1; i >= 0; i-- {
@@ -677,3 +686,27 @@ func vParamsOK(r *vRoute, c *vCand, segs []string, params Params) bool {
 	}
 	return ok
 }
+
+func vAnd(a, b bool) bool { return vx.And(a, b) }
+func vOr(a, b bool) bool  { return vx.Or(a, b) }
+
+func syntaxParse(expr string) (*syntax.Regexp, error) { return syntax.Parse(expr, syntax.Perl) }
+
+// vSplitPath strips leading slashes and splits on '/', by its own scan.
+func vSplitPath(path string) []string {
+	p := 0
+	for p < len(path) && path[p] == '/' {
+		p++
+	}
+	var segs []string
+	start := p
+	for i := p; i < len(path); i++ {
+		if path[i] == '/' {
+			segs = append(segs, path[start:i])
+			start = i + 1
+		}
+	}
+	segs = append(segs, path[start:])
+	return segs
+}
+
